@@ -1,5 +1,26 @@
-import RscelModel.Lemmas.CertNested
+import RscelModel.Lemmas.Infer
 import RscelModel.Theorems.C10
+/-
+C10, compiler side — every program the *model compiler* emits is well-formed on every path.
+
+`Theorems/C10.lean` proves the checker sound against the VM and the check runs it per program on the real
+bytecode.  Here the universal statement is proved for the Lean compiler model (`Model/Compile.lean`):
+
+* `compile_certified` / `compile_wfFlat` — for every syntax tree and every set of built-ins, the emitted
+  block has a stack-height certificate `0 ↦ 1` and the executable checker `wfFlat` accepts it.  Mutual
+  induction over the AST following `compileX`, `compileCases`, `compilePat`, `compileList`, `compileInits`,
+  `compileSegs`, `compilePrim`, `compileArgs`, `compileOps`, with the fragment calculus of `Lemmas/Cert.lean`
+  (`Seg`); `||` / `&&` chains carry their pieces (`GoodX`) because an enclosing node re-assembles them.
+* `flat_sound_cert`, `run_block_clean_cert`, `compiled_program_runs_clean` — the VM never reports underflow /
+  bad jump / fuel on compiled code (given clean nested runs).
+* `compile_nested_certified`, `compile_wf` — nested blocks at every depth, and `wfBlock` as a whole; the only
+  hypothesis is `ConstEvalCert` (values computed by *evaluating* a call at compile time hold no uncertified
+  code).  Constant folding proper is proved not to create code (`Lemmas/CertNested.lean`).
+* `Lemmas/Infer.lean`: `wfFlat` accepts exactly the blocks that have a certificate (`infer_complete`).
+
+Nothing is missing from the compiler model's constructs; what is *not* covered is the real compiler (tied by
+the bytecode correspondence) and `ConstEvalCert`.
+-/
 namespace Rscel
 namespace C10
 open Cert
@@ -219,6 +240,11 @@ end
     member/call/index chains, folded constants) and every set of built-ins. -/
 theorem compile_certified (a : Ast) : ∃ H, checkHeights (compileProgram B a) H 0 1 = true :=
   seg_check (compileX_good B a).1
+
+/-- The same for the executable checker (the inference is complete: `Cert.infer_complete`): **`wfFlat` accepts
+    every compiled program**. -/
+theorem compile_wfFlat (a : Ast) : wfFlat (compileProgram B a) 0 1 = true :=
+  (wfFlat_iff_cert _ 0 1).mpr (compile_certified B a)
 
 /-- The relative form: compiled code is an expression segment wherever it is placed — on top of any
     stack, inside any larger block. -/
@@ -535,6 +561,12 @@ theorem compile_nested_certified (hev : ConstEvalCert B) (a : Ast) : NestedCert 
 theorem compile_wf_cert (hev : ConstEvalCert B) (a : Ast) :
     (∃ H, checkHeights (compileProgram B a) H 0 1 = true) ∧ NestedCert (compileProgram B a) :=
   ⟨compile_certified B a, compile_nested_certified B hev a⟩
+
+/-- **`compile_wf`**: the executable checker `wfBlock` — the function every C10 check runs on the real
+    compiler's output — accepts every program of the model compiler, nested blocks included (given
+    `ConstEvalCert` for the constants that come from compile-time evaluation). -/
+theorem compile_wf (hev : ConstEvalCert B) (a : Ast) : wfBlock (compileProgram B a) = true :=
+  (wfBlock_iff_cert _).mpr (compile_wf_cert B hev a)
 end
 
 /-! ### Non-vacuity -/
